@@ -55,13 +55,15 @@ type Stats struct {
 	Nontrivial int            `json:"nontrivial"`
 	L2Agree    int            `json:"l2_agree"`  // live tensors whose Strides() equal the Level-2 transcription's
 	L2Differ   int            `json:"l2_differ"` // ... and differ (not a verdict: strides are not observable behaviour)
+	SubCmp     map[string]int `json:"sub_cmp"`  // per substituted operator / dtype class: computed (non-trivial) values compared
+	SubOpen    map[string]int `json:"sub_open"` // ... and left open by the evaluator (no oracle): a key with only open values is never checked
 	TagN       map[string]int `json:"tag_n"`     // executions in which the circumstance named by the tag occurred
 	TagDiv     map[string]int `json:"tag_div"`   // ... of which diverged
 	TagPass    map[string]int `json:"tag_pass"`  // ... of which were compared to the end and agreed
 }
 
 func NewStats() *Stats {
-	return &Stats{ByOp: map[string]int{}, RefusedOps: map[string]int{}, TagN: map[string]int{}, TagDiv: map[string]int{}, TagPass: map[string]int{}}
+	return &Stats{ByOp: map[string]int{}, RefusedOps: map[string]int{}, SubCmp: map[string]int{}, SubOpen: map[string]int{}, TagN: map[string]int{}, TagDiv: map[string]int{}, TagPass: map[string]int{}}
 }
 
 var churn = make([]string, 512)
@@ -563,6 +565,14 @@ func (w *World) compare(i int, p *Post) (*Divergence, bool) {
 			term := w.heapTerm(p, cell)
 			exp := ev.Eval(term)
 			w.Stats.Compared++
+			if w.Cfg.Sub != "" && term.Head != "c" && term.Head != "k" {
+				key := w.Cfg.Sub + "/" + w.Cfg.D.Name
+				if exp.Open {
+					w.Stats.SubOpen[key]++
+				} else {
+					w.Stats.SubCmp[key]++
+				}
+			}
 			if exp.Open {
 				w.Stats.OpenPos++
 				continue
